@@ -147,6 +147,29 @@ HeadFails(rq, h, chkOrig) ==
                h.chunked_after # "na" => (h.chunked_after = "yes" <=> fr = "chunked"))
 
 (***************************************************************************)
+(* Extra X04 (no listed property): the request as the flow presents it in   *)
+(* the send-request state — method(), uri(), version(), headers_map() —     *)
+(* agrees with the head it puts on the wire.                                *)
+(* v: [res ("ok" | "err"), method, target, version, map (seq of [n, v])]    *)
+(* h: the lexed reference head of the same request                          *)
+(***************************************************************************)
+LastOf(F, nm) == LET idx == { i \in 1..Len(F) : F[i].n = nm } IN F[CHOOSE i \in idx : \A j \in idx : j <= i].v
+
+ViewFails(rq, h, v) ==
+  LET verdict == Validate(rq)
+  IN IF verdict = "reject" \/ (verdict = "either" /\ v.res = "err")
+     THEN SClause("X04", "headers_map() of a request that cannot be sent must report the error", v.res = "err")
+     ELSE   SClause("X04", "headers_map() failed for a valid request", v.res = "ok")
+       \cup (IF v.res # "ok" \/ ~h.complete THEN {} ELSE
+                 SClause("X04", "method() / uri() / version() in the send-request state differ from the request line on the wire",
+                         v.method = h.method /\ v.target = h.target /\ v.version = h.version)
+            \cup SClause("X04", "headers_map() does not have exactly the header names of the head on the wire",
+                         { v.map[i].n : i \in 1..Len(v.map) } = { h.fields[i].n : i \in 1..Len(h.fields) })
+            \cup SClause("X04", "headers_map() lists a name twice", \A i, j \in 1..Len(v.map) : v.map[i].n = v.map[j].n => i = j)
+            \cup SClause("X04", "a value in headers_map() is not the value of that header's last line on the wire",
+                         \A i \in 1..Len(v.map) : (\E k \in 1..Len(h.fields) : h.fields[k].n = v.map[i].n) => v.map[i].v = LastOf(h.fields, v.map[i].n)))
+
+(***************************************************************************)
 (* Impl: try_write_prelude — greedy, blank line glued to the last header.   *)
 (* Defect "TermOnHeadRewrite": a further write on a chunked body flow after *)
 (* the head is complete emits the chunked terminator (pinned tree, F3).     *)
